@@ -13,16 +13,16 @@ import (
 )
 
 type Result struct {
-	Obl     *Obl
-	Status  string // unsat sat unknown timeout error
-	Solver  string
-	Secs    float64
-	File    string
-	Output  string
-	Size    int
-	OK      bool // obligation discharged (or cover not refuted)
-	Tried   []string
-	Part    int
+	Obl    *Obl
+	Status string // unsat sat unknown timeout error
+	Solver string
+	Secs   float64
+	File   string
+	Output string
+	Size   int
+	OK     bool // obligation discharged (or cover not refuted)
+	Tried  []string
+	Part   int
 }
 
 func (fe *FnEnc) query(o *Obl, withModel bool) string { return fe.queryPart(o, -1, withModel) }
